@@ -56,6 +56,33 @@ fn cmp_seq<U: OutElem>(rep: &mut Report, f: &str, key: &str, cell: &str, got: Re
     }
 }
 
+/// the same comparison for a series measured in another unit (MapOps.tla LagHomogeneous): the
+/// expectation is multiplied by unit^degree
+fn cmp_seq_unit<U: OutElem>(rep: &mut Report, f: &str, key: &str, cell: &str, got: Result<((usize, Option<usize>), Vec<U>), String>, want: &[Exp],
+                            un: Unit, case: &Value) {
+    rep.cells += 1;
+    match got {
+        Err(p) => rep.mismatch(f, f, key, cell, &format!("panicked: {p}"), case),
+        Ok((_, items)) => {
+            if items.len() != want.len() {
+                rep.mismatch(f, f, key, cell, &format!("{} elements for an input of {}", items.len(), want.len()), case);
+                return;
+            }
+            for (i, (g, e)) in items.iter().zip(want).enumerate() {
+                if e.is_any() {
+                    rep.skipped();
+                    continue;
+                }
+                if let Err(d) = satisfies_unit(e, g.obs(), un, U::NULL_AS_ZERO) {
+                    rep.mismatch(f, f, key, cell, &format!("position {i}: {d}"), case);
+                    return;
+                }
+            }
+            rep.ok(f, 0.0);
+        },
+    }
+}
+
 fn opt_exps(v: &Value, k: &str) -> Vec<Exp> {
     get_ints(v, k).into_iter().map(Exp::from_opt_int).collect()
 }
@@ -159,6 +186,32 @@ fn lag(rep: &mut Report, v: &Value) {
     if nullfree && fill != NULL {
         let vi: Vec<i32> = enc_vec(&s);
         cmp_seq(rep, "vdiff", &key("vdiff"), "Vec<i32>", catch(|| drain(vi.vdiff(n, Some(fill as i32)))), &e_diff, v);
+    }
+    // ---- the same series (and fill value) in other units of measurement ----
+    if let Some(deg) = v.get("deg").and_then(|d| d.as_object()) {
+        let d = |k: &str| deg[k].as_i64().unwrap() as i32;
+        let maxabs = max_abs(&s).max(if fill == NULL { 0 } else { fill.abs() });
+        // 2^-1060 is a subnormal power of two (products and differences stay exact), 1e300 leaves
+        // no headroom for squares, 123467.8 is not dyadic
+        for u in [2.0_f64.powi(-1060), 1e300, 123467.8] {
+            let un = |k: &str| { let f = u.powi(d(k)); Unit { factor: f, floor: f * (maxabs.max(1) as f64).powi(d(k)) } };
+            let vu: Vec<f64> = enc_vec_unit(&s, u);
+            let fu = if fill == NULL { None } else { Some(fill as f64 * u) };
+            let cell = format!("Vec<f64>@unit={u:e}");
+            cmp_seq_unit(rep, "vshift", &key("vshift"), &cell, catch(|| drain(vu.titer().vshift(n, fu))), &e_shift, un("shift"), v);
+            cmp_seq_unit(rep, "vdiff", &key("vdiff"), &cell, catch(|| drain(vu.vdiff(n, fu))), &e_diff, un("diff"), v);
+            if fill == NULL {
+                cmp_seq_unit(rep, "vpct_change", &key("vpct_change"), &cell, catch(|| drain(vu.vpct_change(n))), &e_pct, un("pct"), v);
+                let vou: Vec<Option<f64>> = enc_vec_unit(&s, u);
+                cmp_seq_unit(rep, "vpct_change", &key("vpct_change"), &format!("Vec<Option<f64>>@unit={u:e}"), catch(|| drain(vou.vpct_change(n))), &e_pct, un("pct"), v);
+            }
+        }
+        if nullfree && fill == NULL && <i32 as InElem>::fits(maxabs, 400_000_000.0) {
+            let u: f64 = 400_000_000.0;
+            let f = u.powi(d("pct"));
+            let vi: Vec<i32> = enc_vec_unit(&s, u);
+            cmp_seq_unit(rep, "vpct_change", &key("vpct_change"), "Vec<i32>@unit=4e8", catch(|| drain(vi.vpct_change(n))), &e_pct, Unit { factor: f, floor: f }, v);
+        }
     }
     if fill == NULL {
         cmp_seq(rep, "vpct_change", &key("vpct_change"), "Vec<f64>", catch(|| drain(vf.vpct_change(n))), &e_pct, v);
